@@ -324,3 +324,27 @@ func VP_C07_after_failure() {
 	}
 	vp.Cover("end")
 }
+
+// a fully valid frame whose declared uncompressed size is just over the
+// protocol maximum (by 1 up to the length of the packet id, ids of one to five
+// VarInt bytes) and whose zlib stream inflates to exactly that size: refused.
+// (VP_C07_reject covers every declared size, but over streams of a few bytes,
+// which fail in the inflater whatever the size check does.)
+func VP_C07_reject_oversize_valid() {
+	id := []int32{5, 300, 70000, 1 << 28, -1}[vp.Choice(5)]
+	idb := vpVarIntRef(id)
+	j := 1 + vp.Choice(len(idb))
+	n := MaxDataLength + j
+	vp.SizeBound(5 * n)
+	vp.Unwind(n + 64)
+	bufPool = sync.Pool{New: func() any { return new(bytes.Buffer) }}
+	plain := append(append([]byte{}, idb...), bytes.Repeat([]byte{0x41}, n-len(idb))...)
+	var body []byte
+	body = append(body, vpVarIntRef(int32(n))...)
+	body = append(body, vp.Deflate(plain)...)
+	stream := append(vpVarIntRef(int32(len(body))), body...)
+	var q Packet
+	err := q.UnPack(bytes.NewReader(stream), []int{0, 256}[vp.Choice(2)])
+	vp.Assert(err != nil, "bad declared size rejected (compressed)")
+	vp.Cover("end")
+}
